@@ -32,10 +32,10 @@ def cbmc_cmd(cfile, prop_index, trace=True):
 def run_one(cfile, ob, timeout, mem_kb=8 * 1024 * 1024):
     """first a cheap attempt with the solver that wins most often, then the whole portfolio with the full timeout"""
     t1 = min(timeout, float(os.environ.get('STV_FIRST_TIMEOUT', '20')))
-    r = _run_one(cfile, ob, t1, mem_kb, os.environ.get('STV_PORTFOLIO_FIRST', 'z3int,z3new,z3nl'))
+    r = _run_one(cfile, ob, t1, mem_kb, os.environ.get('STV_PORTFOLIO_FIRST', 'z3int,z3uf,z3new,z3nl'))
     if r.status != UNDECIDED:
         return r
-    r2 = _run_one(cfile, ob, timeout, mem_kb, os.environ.get('STV_PORTFOLIO', 'z3int,z3new,z3som,cvc5int,z3newint,cvc5,z3nl,z3def'))
+    r2 = _run_one(cfile, ob, timeout, mem_kb, os.environ.get('STV_PORTFOLIO', 'z3int,z3uf,z3new,z3som,cvc5int,z3newint,cvc5,z3nl,z3def'))
     r2.secs += r.secs
     return r2
 
@@ -95,7 +95,7 @@ def run_batch(cfile, obs, timeout, mem_kb=8 * 1024 * 1024):
     env = dict(os.environ)
     env['PATH'] = PORTFOLIO + os.pathsep + env.get('PATH', '')
     env['STV_SOLVER_TIMEOUT'] = str(min(timeout, 30))
-    env['STV_PORTFOLIO'] = os.environ.get('STV_PORTFOLIO_FIRST', 'z3int,z3new,z3nl')
+    env['STV_PORTFOLIO'] = os.environ.get('STV_PORTFOLIO_FIRST', 'z3int,z3uf,z3new,z3nl')
     cmd = ['cbmc', cfile, '--z3', '--nondet-static', '--no-standard-checks']
     for o in obs:
         cmd += ['--property', 'main.assertion.%d' % o.index]
